@@ -448,6 +448,34 @@ def glue10(ctx: Ctx) -> None:
                 ctx.R.fail("GLUE-10", mod, sk, f"the scan skips a module when `{norm(gx)[:60]}`, decided by {memo}, which persists across scans: a module removed and imported again (a new module object, "
                            "possibly with its own _stackscope_install_glue_) under a remembered name is never examined again", construct=f"scan skip by persistent memo {memo}")
     if not reported:
+        # a skip by membership of the module's name in sys.stdlib_module_names: decidable against the glue registrations
+        stdlib_alias = {norm(a_.targets[0]) for a_ in mod.tree.body if isinstance(a_, (ast.Assign, ast.AnnAssign)) and getattr(a_, "value", None) is not None
+                        and "stdlib_module_names" in norm(a_.value) for a_ in [a_] if isinstance(a_, ast.Assign)} | \
+                       {norm(a_.target) for a_ in mod.tree.body if isinstance(a_, ast.AnnAssign) and a_.value is not None and "stdlib_module_names" in norm(a_.value)} | {"sys.stdlib_module_names"}
+        for sk in skips:
+            for gx, pol in guards_of(mod, sk, add):
+                if any(al in norm(gx) for al in stdlib_alias) and norm(loop.target) in norm(gx):
+                    targets = [d.args[0].value for f_ in ast.walk(mod.tree) if isinstance(f_, ast.FunctionDef) for d in f_.decorator_list
+                               if isinstance(d, ast.Call) and norm(d.func) == "builtin_glue" and d.args and isinstance(d.args[0], ast.Constant)]
+                    imported = set()
+                    for m_ in ctx.P.analysed_mods():
+                        for st in m_.tree.body:
+                            if isinstance(st, ast.Import):
+                                imported |= {a.name.split(".")[0] for a in st.names}
+                            elif isinstance(st, ast.ImportFrom) and st.level == 0 and st.module:
+                                imported.add(st.module.split(".")[0])
+                    lost = {}
+                    for v in ctx.V.all:
+                        names = set(ctx.F["interp"][v].get("stdlib_module_names", []))
+                        bad = sorted(t for t in targets if t.split(".")[0] in names and t.split(".")[0] not in imported and t != "builtins")
+                        if bad:
+                            lost[v] = bad
+                    if lost:
+                        reported = True
+                        ctx.R.fail("GLUE-10", mod, sk, f"the scan skips every module whose top-level name is in sys.stdlib_module_names; stackscope has built-in glue for {sorted({t for b in lost.values() for t in b})}, "
+                                   f"which are standard-library modules (CPython {sorted(lost)}) that stackscope does not import itself: imported later by the program, their glue is never installed",
+                                   construct="scan skips standard-library module names")
+    if not reported:
         ctx.R.undecided("GLUE-10", "some path through the scan loop skips the installer call; cannot decide whether the skipped modules can have pending glue")
 
 
